@@ -30,7 +30,38 @@ def import_case(case):
     doc = eds.gen_doc(rng, case.get("nobj", 10), case.get("features"))
     txt = eds.render(doc)
     try:
-        if case.get("via") == "fileobj":
+        if case.get("via") == "node" and txt.isascii():
+            # the device serves its own EDS in object 0x1021 (import_from_node)
+            import canopen
+            from canopen.objectdictionary import ODVariable
+            nid = doc["nodearg"] if 1 <= doc["nodearg"] <= 127 else 5
+            doc["nodearg"] = nid
+            dev_od = canopen.ObjectDictionary()
+            v = ODVariable("Store EDS", 0x1021, 0)
+            v.data_type = 0xF
+            dev_od.add_object(v)
+            net1, net2 = canopen.Network(), canopen.Network()
+
+            class _Link:
+                def __init__(self, peer):
+                    self.peer = peer
+
+                def send(self, msg, timeout=None):
+                    self.peer.notify(msg.arbitration_id, bytearray(msg.data), 0.0)
+
+                def shutdown(self):
+                    pass
+            net1.bus, net2.bus = _Link(net2), _Link(net1)
+            dev = canopen.LocalNode(nid, dev_od)
+            net2.add_node(dev)
+            dev.sdo[0x1021].raw = txt.encode("ascii")
+            # (Network.add_node(nid, upload_eds=True) = this call + RemoteNode(nid, od); a RemoteNode wants
+            # every PDO communication record to come with its mapping record, which random documents lack)
+            from canopen.objectdictionary.eds import import_from_node
+            od = import_from_node(nid, net1)
+            if od is None:
+                raise RuntimeError("no object dictionary could be uploaded from the node")
+        elif case.get("via") == "fileobj":
             import canopen
             fp = io.StringIO(txt)
             fp.name = "generated.dcf"
